@@ -12,6 +12,8 @@ CONSTANTS
     KeepChunkSize = TRUE
     DivideKeepsAll = TRUE
     LandmarkOwnStream = TRUE
+    KeepLastDup = TRUE
+    ReservedByFullName = TRUE
 INIT GenInit
 NEXT GenNext
 CHECK_DEADLOCK FALSE
